@@ -13,18 +13,21 @@ import z3
 from harness.common import *
 
 
-def chain_src(d, vals=None):
-    """helpers h1..hd (value-returning); h_i = slot A (callee: marker | h_{i-1}) + slot B (marker | h_{i-2} | leaf)"""
-    out = ['@group(0) @binding(0) var<uniform> u: vec4<f32>;', 'fn leaf() -> u32 { return u32(u.x); }']
+def chain_src(d, vals=None, void=False):
+    """helpers h1..hd (value-returning, or void when `void`); h_i = slot A (callee: marker | h_{i-1}) + slot B (marker | h_{i-2} | leaf)"""
+    if void:
+        out = ['@group(0) @binding(0) var<storage, read_write> u: array<u32, 4>;', 'fn leaf() { u[0] = 1u; }']
+    else:
+        out = ['@group(0) @binding(0) var<uniform> u: vec4<f32>;', 'fn leaf() -> u32 { return u32(u.x); }']
     for i in range(1, d + 1):
-        out.append(f'fn ma{i}() -> u32 {{ return 0u; }}')
-        out.append(f'fn mb{i}() -> u32 {{ return 0u; }}')
+        out.append(f'fn ma{i}() {{}}' if void else f'fn ma{i}() -> u32 {{ return 0u; }}')
+        out.append(f'fn mb{i}() {{}}' if void else f'fn mb{i}() -> u32 {{ return 0u; }}')
     for i in range(1, d + 1):
         a = (vals or {}).get(f'a{i}', f'ma{i}')
         b = (vals or {}).get(f'b{i}', f'mb{i}')
-        out.append(f'fn h{i}() -> u32 {{ let x = {a}(); let y = {b}(); return x + y; }}')
+        out.append(f'fn h{i}() {{ {a}(); {b}(); }}' if void else f'fn h{i}() -> u32 {{ let x = {a}(); let y = {b}(); return x + y; }}')
     top = (vals or {}).get('top', f'h{d}')
-    out.append(f'@compute @workgroup_size(1) fn main() {{ let r = {top}(); }}')
+    out.append(f'@compute @workgroup_size(1) fn main() {{ {top}(); }}' if void else f'@compute @workgroup_size(1) fn main() {{ let r = {top}(); }}')
     return '\n'.join(out) + '\n'
 
 
@@ -50,7 +53,7 @@ def subst_callee(c, fn, marker, term):
         if e.variant == 'CallResult' and e.fields[0] == marker:
             e.fields[0] = term
             n += 1
-    if n != 2:
+    if n not in (1, 2):
         raise Inconclusive('template/IR mismatch in chain template')
 
 
@@ -64,59 +67,61 @@ def run(ctx):
                         'budget: call graph walk <= entries * (functions + call sites + 1); type walk <= variables * (types + member edges + 1): linear in the size of the shader']
     seen = {}
     # ------------------------------------------------------------------ (a) call graphs
-    src = chain_src(d)
-    dmp = S.dump(src)
-    mj = dmp['module']
-    fh = {f['name']: i for i, f in enumerate(mj['functions'])}
-    module = c.module(dmp)
-    funcs = c.get(module, 'functions').fields[0].items
-    assume, terms = [], {}
-    diamond_levels = [d, d - 2] if quick else [d, d - 2, d - 4]
-    for i in range(1, d + 1):
-        fn = funcs[fh[f'h{i}']]
-        ta = z3.BitVec(f'a{i}', 32)
-        terms[f'a{i}'] = ta
-        subst_callee(c, fn, fh[f'ma{i}'], ta)
-        assume.append(z3.Or([ta == fh[f'ma{i}']] + ([ta == fh[f'h{i - 1}']] if i > 1 else [ta == fh['leaf']])))
-        tb = z3.BitVec(f'b{i}', 32)
-        terms[f'b{i}'] = tb
-        subst_callee(c, fn, fh[f'mb{i}'], tb)
-        if i in diamond_levels and i > 2:
-            assume.append(z3.Or(tb == fh[f'mb{i}'], tb == fh[f'h{i - 2}'], tb == fh['leaf']))
-        elif i > 1:
-            assume.append(tb == fh[f'h{i - 1}'])            # both call sites name the previous level: the doubling shape
-        else:
-            assume.append(tb == fh['leaf'])
-    n_funcs, n_sites = len(mj['functions']), 2 * d + 1
-    budget = 1 * (n_funcs + n_sites + 1)
-    res = ctx.explore(f'global_shader_stages/chain-depth-{d}', lambda it: it.call('global_shader_stages', [mkref(module)]), assume=assume,
-                      env={'call_caps': {'update_stages': budget + 1}}, anchors=['global_shader_stages', 'update_stages', 'update_stages_blocks'], timeout_s=3000, max_paths=20000)
-    worst = (0, None)
-    for pc, kind, out, calls in res:
-        n = calls.get('update_stages', 0)
-        ctx.queries['discharged'] += 1
-        if kind == 'panic':
-            raise Inconclusive('stage walk panicked: ' + out)
-        if kind == 'cost':
-            n = budget + 1
-        if n > worst[0]:
-            worst = (n, pc)
-        if n <= budget:
-            ctx.queries['unsat'] += 1
-            continue
-        ctx.queries['sat'] += 1
-        seen['C20/call-graph'] = seen.get('C20/call-graph', 0) + 1
-        if seen['C20/call-graph'] > 1:
-            continue
-        m = ctx.witness(pc)
-        inv = {v: k for k, v in fh.items()}
-        shape = {k: inv[model_value(m, t)] for k, t in terms.items()}
-        rep, det = replay_chain(ctx, shape, d)
-        ctx.report('C20/call-graph', f'update_stages entered {">= " if kind == "cost" else ""}{n} times on a {n_funcs}-function / {n_sites}-call-site shader (linear budget {budget}); shape {shape}',
-                   det, rep, det)
-    ctx.extra['call_graph'] = {'paths': len(res), 'worst_update_stages_invocations': worst[0], 'budget': budget, 'functions': n_funcs, 'call_sites': n_sites}
-    ctx.sample({'harness': 'chain', 'depth': d, 'worst invocations': worst[0], 'budget': budget})
-    ctx.vacuity_witness('cost assertion reachable', res[0][0])
+    for void in (False, True):
+        key_cg = 'C20/call-graph-' + ('void' if void else 'value')
+        src = chain_src(d, void=void)
+        dmp = S.dump(src)
+        mj = dmp['module']
+        fh = {f['name']: i for i, f in enumerate(mj['functions'])}
+        module = c.module(dmp)
+        funcs = c.get(module, 'functions').fields[0].items
+        assume, terms = [], {}
+        diamond_levels = [d, d - 2] if quick else [d, d - 2, d - 4]
+        for i in range(1, d + 1):
+            fn = funcs[fh[f'h{i}']]
+            ta = z3.BitVec(f'a{i}', 32)
+            terms[f'a{i}'] = ta
+            subst_callee(c, fn, fh[f'ma{i}'], ta)
+            assume.append(z3.Or([ta == fh[f'ma{i}']] + ([ta == fh[f'h{i - 1}']] if i > 1 else [ta == fh['leaf']])))
+            tb = z3.BitVec(f'b{i}', 32)
+            terms[f'b{i}'] = tb
+            subst_callee(c, fn, fh[f'mb{i}'], tb)
+            if i in diamond_levels and i > 2:
+                assume.append(z3.Or(tb == fh[f'mb{i}'], tb == fh[f'h{i - 2}'], tb == fh['leaf']))
+            elif i > 1:
+                assume.append(tb == fh[f'h{i - 1}'])            # both call sites name the previous level: the doubling shape
+            else:
+                assume.append(tb == fh['leaf'])
+        n_funcs, n_sites = len(mj['functions']), 2 * d + 1
+        budget = 1 * (n_funcs + n_sites + 1)
+        res = ctx.explore(f'global_shader_stages/{"void" if void else "value"}-chain-depth-{d}', lambda it: it.call('global_shader_stages', [mkref(module)]), assume=assume,
+                          env={'call_caps': {'update_stages': budget + 1}}, anchors=['global_shader_stages', 'update_stages', 'update_stages_blocks'], timeout_s=3000, max_paths=20000)
+        worst = (0, None)
+        for pc, kind, out, calls in res:
+            n = calls.get('update_stages', 0)
+            ctx.queries['discharged'] += 1
+            if kind == 'panic':
+                raise Inconclusive('stage walk panicked: ' + out)
+            if kind == 'cost':
+                n = budget + 1
+            if n > worst[0]:
+                worst = (n, pc)
+            if n <= budget:
+                ctx.queries['unsat'] += 1
+                continue
+            ctx.queries['sat'] += 1
+            seen[key_cg] = seen.get(key_cg, 0) + 1
+            if seen[key_cg] > 1:
+                continue
+            m = ctx.witness(pc)
+            inv = {v: k for k, v in fh.items()}
+            shape = {k: inv[model_value(m, t)] for k, t in terms.items()}
+            rep, det = replay_chain(ctx, shape, d, void)
+            ctx.report(key_cg, f'update_stages entered {">= " if kind == "cost" else ""}{n} times on a {n_funcs}-function / {n_sites}-call-site shader (linear budget {budget}); shape {shape}',
+                       det, rep, det)
+        ctx.extra['call_graph_' + ('void' if void else 'value')] = {'paths': len(res), 'worst_update_stages_invocations': worst[0], 'budget': budget, 'functions': n_funcs, 'call_sites': n_sites}
+        ctx.sample({'harness': 'chain', 'depth': d, 'worst invocations': worst[0], 'budget': budget})
+        ctx.vacuity_witness('cost assertion reachable', res[0][0])
     # ------------------------------------------------------------------ (b) type graphs
     src2 = struct_src(d)
     dmp2 = S.dump(src2)
@@ -175,7 +180,8 @@ def run(ctx):
     ctx.extra['type_graph'] = {'paths': len(res2), 'worst_add_types_recursive_invocations': worst2[0], 'budget': budget2, 'types': n_types}
     ctx.sample({'harness': 'nested structs', 'depth': d, 'worst invocations': worst2[0], 'budget': budget2})
     # ------------------------------------------------------------------ native: the doubling shapes at depth 24 / 22 must be fast on the real build
-    for name, (rep, det) in (('call-graph', replay_chain(ctx, None, d)), ('type-graph', replay_structs(ctx, None, d))):
+    for name, (rep, det) in (('call-graph-value', replay_chain(ctx, None, d, False)), ('call-graph-void', replay_chain(ctx, None, d, True)),
+                             ('type-graph', replay_structs(ctx, None, d))):
         ctx.sample({'native': name, **{k: v for k, v in det.items() if k != 'wgsl'}})
         if rep:
             key = f'C20/{name}'
@@ -201,16 +207,16 @@ def timed_gen(ctx, src, opts, limit=20):
     return time.time() - t0, okv
 
 
-def replay_chain(ctx, shape, d):
+def replay_chain(ctx, shape, d, void=False):
     """the witness shape generalised to depth 24 (every level calls the previous one from both call sites)"""
     D = 24
     vals = {}
     for i in range(1, D + 1):
         vals[f'a{i}'] = f'h{i - 1}' if i > 1 else 'leaf'
         vals[f'b{i}'] = f'h{i - 1}' if i > 1 else 'leaf'
-    src = chain_src(D, vals)
+    src = chain_src(D, vals, void)
     secs, okv = timed_gen(ctx, src, {})
-    base, _ = timed_gen(ctx, chain_src(D), {})
+    base, _ = timed_gen(ctx, chain_src(D, None, void), {})
     det = {'wgsl': src, 'depth': D, 'lines': src.count('\n'), 'seconds': round(secs, 3), 'same_size_shader_without_calls_seconds': round(base, 3), 'generated': okv}
     return secs > max(1.0, 20 * base), det
 
